@@ -52,6 +52,12 @@ type Program struct {
 	SSAPkgs  map[string]*ssa.Package // keyed by short path relative to the module ("rtmp", "https/jose")
 	AllFuncs map[*ssa.Function]bool
 
+	typeUnpin  map[string]*types.TypeName // "pkg.PinnedName" -> renamed type of this tree
+	funcUnpin  map[string]*types.Func     // "pkg.(*T).m" (pinned spelling) -> function of this tree
+	globUnpin  map[string]*types.Var
+	roleByName map[string]*ssa.Function
+	RoleMoves  []string // roles whose function is not where the pinned name says (evidence)
+
 	cgOnce sync.Once
 	cg     *callgraph.Graph
 }
@@ -117,6 +123,15 @@ func Load(cfg Config) (*Program, error) {
 		}
 	}
 	p.AllFuncs = ssautil.AllFunctions(prog)
+	p.applyRoles()
+	var tps []*types.Package
+	for _, pk := range pkgs {
+		if pk.Types != nil {
+			tps = append(tps, pk.Types)
+		}
+	}
+	p.pinPackages(tps)
+	pinStructs(tps)
 	fieldInvariantFuncs = p.ModuleFuncs()
 	CalleesOfSite = func(site ssa.CallInstruction) []*ssa.Function { return p.Callees(site) }
 	CallersOf = func(fn *ssa.Function) []ssa.CallInstruction {
@@ -182,6 +197,14 @@ func FuncName(fn *ssa.Function) string {
 	if fn == nil {
 		return "<nil>"
 	}
+	if n, ok := roleName(fn); ok {
+		return n
+	}
+	if InModule(fn) {
+		if n, ok := pinnedRelName(fn); ok {
+			return n
+		}
+	}
 	return fn.RelString(pkgOf(fn))
 }
 
@@ -206,6 +229,17 @@ func QualName(fn *ssa.Function) string {
 // Func resolves a function or method by package and display name; nil if absent.
 // name forms: "Discovery", "(*Protocol).WriteMessage", "(AudioSamplingRate).ToHz", "NewCommentReader$1".
 func (p *Program) Func(pkg, name string) *ssa.Function {
+	if f := p.roleFunc(pkg, name); f != nil {
+		return f
+	}
+	f := p.funcPlain(pkg, name)
+	if f != nil && roleDisplaced(f) {
+		return nil
+	}
+	return f
+}
+
+func (p *Program) funcPlain(pkg, name string) *ssa.Function {
 	sp := p.SSAPkgs[pkg]
 	if sp == nil {
 		return nil
@@ -215,7 +249,9 @@ func (p *Program) Func(pkg, name string) *ssa.Function {
 		base, anon = name[:i], name[i:]
 	}
 	var fn *ssa.Function
-	if strings.HasPrefix(base, "(") {
+	if tf, ok := p.funcUnpin[pkg+"."+base]; ok {
+		fn = p.SSA.FuncValue(tf)
+	} else if strings.HasPrefix(base, "(") {
 		close := strings.Index(base, ")")
 		recv := base[1:close]
 		meth := base[close+2:]
@@ -259,6 +295,9 @@ func (p *Program) NamedType(pkg, name string) *types.Named {
 		return nil
 	}
 	tn, _ := sp.Pkg.Scope().Lookup(name).(*types.TypeName)
+	if r, ok := p.typeUnpin[pkg+"."+name]; ok {
+		tn = r
+	}
 	if tn == nil {
 		return nil
 	}
@@ -271,6 +310,9 @@ func (p *Program) Global(pkg, name string) *ssa.Global {
 	sp := p.SSAPkgs[pkg]
 	if sp == nil {
 		return nil
+	}
+	if v, ok := p.globUnpin[pkg+"."+name]; ok {
+		name = v.Name()
 	}
 	g, _ := sp.Members[name].(*ssa.Global)
 	return g
